@@ -2,7 +2,7 @@ HOOK_COMMITS = ['c1c434b', '878b954']
 NOTES = ('All checks are driven by bin/check <ID> --tier quick|thorough; exit 0/1/2 as described in DESIGN.md 2.4. '
          'known_findings.json lists recorded defects and fixed ones.')
 _pending = 'check not built yet in this revision (see DESIGN.md); will be claimed when its specification and harness exist'
-for _p in ['C02','C03','C04','C05','C06','C07','C08','C10','C11','C13']:
+for _p in ['C02','C03','C04','C05','C06','C10','C11','C13']:
     NA[_p] = _pending
 NA['C01'] = ('power balance needs numerical integration of the reported pattern over the sphere and a 1.5 % physical '
              'tolerance of the true kernel: numeric accuracy with no discrete content, nothing a TLA+ specification can decide (DESIGN.md section 5)')
@@ -112,3 +112,25 @@ check('C19', 'other',
       '1e12 of both signs with rounding-boundary mantissas through every field; the number formatter is swept over 43 decades.',
       'Level other: TLC decides the structure only; the numeric read-back is decided by the projection (harness/c19.py, harness/report.py).',
       'batched TLC comparison with ReportGrammar.tla + numeric read-back by the report parser', 'DESIGN.md 4 C19')
+
+check('C07', 'exploration',
+      'spec/Circuit.tla (EXTENDS Topology) gives the right-hand-side weight of every pulse for every configuration; TLC checks WeightsAgree, '
+      'GroundWeight, OneRealHalf, FreeSpaceUnit. Replay with seeded source sets (1..4 sources on interior, junction and grounded pulses, both '
+      'addressing forms, seven complex voltage classes, grounded-first and grounded-last registration order): compute_rhs() must equal '
+      '-j/m * weight * V entry by entry (1e-13); on a solved fraction the currents must scale with a complex factor, superpose over the sources '
+      '(each alone with the others at 0 V), leave impedances and the dBi pattern unchanged under scaling; Excitation.impedance / .power, the '
+      'total power and the SOURCE DATA block must equal V/I and Re(V I*)/2 of the current on the feed pulse.',
+      'Exploration level: TLC decides the weights (discrete); the linearity relations are numeric comparisons of implementation outputs with '
+      'tolerance 1e-12 * cond(Z). Source sets and voltages are seeded, not exhaustive.',
+      'TLC on Circuit.tla for the weights + replay of seeded source sets (exact rhs, solved linearity relations)', 'DESIGN.md 4 C07, 3.3')
+check('C08', 'exploration',
+      'spec/Circuit.tla gives the load weight and the conductor halves of every pulse (the image half of a grounded pulse is not conductor). '
+      'Replay: with Z := 0 the real compute_impedance_matrix_loads() must put exactly -j/m * weight * Z_closed_form on the diagonal of each '
+      'loaded pulse and nothing elsewhere, for impedance / RLC (every subset of R, L, C) / trap / Laplace (orders 0..3) / skin-effect '
+      '(conductivity or resistivity) / insulation loads, every attachment form (absolute, per object, all of object, all), R, L, C log-uniform '
+      'over 12 decades, 0.1 .. 1000 MHz, different radii at junctions, ideal and real ground; closed forms evaluated independently by the harness. '
+      'Solved fraction: a lumped load on the feed pulse raises the feed impedance by exactly Z_L (also on grounded ends), two loads on a pulse act '
+      'as their sum, zero load / eps_r = 1 / sigma = 1e30 are neutral, conductivity and resistivity are interchangeable.',
+      'Exploration level: weights and conductor halves by TLC; load values, forms and frequencies seeded. Skin effect with |k r| >= 100 is compared '
+      'at 2 % (documented asymptote of the program), otherwise 1e-8 of the summed term magnitudes.',
+      'TLC on Circuit.tla for weights/halves + replay of seeded load sets against independent closed forms', 'DESIGN.md 4 C08, 3.3')
